@@ -27,6 +27,10 @@ VALUES = [
     ["L", []], ["T", []], ["D", []],
     ["y", "6b65792d31"], ["s", "key-1"], ["L", [["y", "6b65792d31"], ["y", "6b65792d31"]]], ["T", [["s", "key-1"], ["s", "key-1"]]],
     ["D", [[["s", "a"], ["y", "6b65792d31"]], [["s", "b"], ["y", "6b65792d31"]]]],
+    # containers whose members sort without an error but not totally (nan compares False with everything): only a digest order is stable
+    ["D", [[["T", [["f", "nan"], ["i", "1"]]], ["i", "1"]], [["T", [["f", "0.5"], ["i", "2"]]], ["i", "2"]], [["T", [["f", "1.5"], ["i", "0"]]], ["i", "3"]]]],
+    ["S", [["T", [["f", "nan"], ["i", "1"]]], ["T", [["f", "0.5"], ["i", "2"]]], ["T", [["f", "1.5"], ["i", "0"]]], ["T", [["f", "0.25"], ["i", "7"]]]]],
+    ["D", [[["f", "nan"], ["s", "x"]], [["f", "0.5"], ["s", "y"]], [["f", "1.5"], ["s", "z"]]]],
 ]
 
 
